@@ -245,7 +245,7 @@ func C11(ctx *Ctx) {
 				R.Fail("ram", "Write:value", mpos, "Write does not store the value it is given")
 				okRam = false
 			}
-		} else if rv, ok := res.(*absint.Int); !ok || !strings.Contains(rv.Lin.Key(), "load[") {
+		} else if rv, ok := res.(*absint.Int); !ok || !strings.Contains(rv.Lin.Key(), "([m.data])[") {
 			R.Fail("ram", "Read:value", mpos, "Read does not return the loaded cell: "+fmtVal(res))
 			okRam = false
 		}
